@@ -84,7 +84,10 @@ def run(ctx):
                 ob3.refute("bypass-guard", "pre-FIFO -> post-FIFO is connected under %s, expected exactly dram_bypass" % (direct,), None)
             f = t.fsms("")
             if ob3.need(len(f) == 1, "mode FSM not found"):
-                st = [l.state for l in t.fsm_leaves(f[0]) if l.kind == "assign" and key(l.target) == "dram_bypass" and is1(l.value)]
+                st = sorted({l.state for l in t.fsm_leaves(f[0]) if l.kind == "assign" and key(l.target) == "dram_bypass" and not is0(l.value)})
+                other = [l for l in t.leaves if l.kind == "assign" and key(l.target) == "dram_bypass" and not is0(l.value)]
+                if other:
+                    st.append("<outside the FSM>")
                 ob3.instance("dram_bypass asserted in", st)
                 if st != [f[0].reset_state]:
                     ob3.refute("bypass-state", "dram_bypass is asserted in %s, expected only in the reset (bypass) state %s" % (st, f[0].reset_state), None)
